@@ -3,6 +3,8 @@ use emmylua_parser::{
     LuaTokenKind, float_token_value, int_token_value,
 };
 
+use hashbrown::HashSet;
+
 use crate::{DiagnosticCode, LuaSignatureId, SemanticModel};
 
 use super::{Checker, DiagnosticContext};
@@ -14,11 +16,16 @@ impl Checker for SyntaxErrorChecker {
 
     fn check(context: &mut DiagnosticContext, semantic_model: &SemanticModel) {
         if let Some(parse_errors) = semantic_model.get_file_parse_error() {
+            // error recovery can record the same error twice at the same place; report it once
+            let mut reported = HashSet::new();
             for parse_error in parse_errors {
                 let code = match parse_error.kind {
                     LuaParseErrorKind::SyntaxError => DiagnosticCode::SyntaxError,
                     LuaParseErrorKind::DocError => DiagnosticCode::DocSyntaxError,
                 };
+                if !reported.insert((code, parse_error.range, parse_error.message.clone())) {
+                    continue;
+                }
 
                 context.add_diagnostic(code, parse_error.range, parse_error.message, None);
             }
